@@ -95,6 +95,7 @@ type ObResult struct {
 	FeasQueries   int
 	CacheHits     int
 	CrossDone     int
+	hangTried     bool
 	Cross         []Sample
 	Disagree      []string
 	BranchUnknown int
@@ -580,6 +581,15 @@ func (w *World) runObligation(ob *Obligation, debug bool) *ObResult {
 			r.PathsDone++
 		case "unwind":
 			r.UnwindHits = appendCapped(r.UnwindHits, end.msg)
+			// termination is part of several properties: the first loop-budget hit of an
+			// obligation is handed to the native replay under a wall-clock limit; only a
+			// native hang is ever reported
+			if strings.HasPrefix(end.msg, "loop budget") && !r.hangTried && in.concrete == nil {
+				r.hangTried = true
+				if sol.Check(in.pc, nil) == Sat {
+					in.addViolation(&Violation{Label: "terminates", Kind: "hang", Site: in.site(), Msg: end.msg, Model: in.model(), Path: r.Paths})
+				}
+			}
 		case "unsupported":
 			r.Unsupported = appendCapped(r.Unsupported, end.msg)
 		default: // budget, unknown
